@@ -4,11 +4,11 @@ use crate::support::*;
 use educe::Educe;
 use core::cmp::Ordering;
 #[derive(Educe)]
-#[educe(PartialOrd, Ord, PartialEq, Eq)]
-pub enum T { C { #[educe(PartialOrd(rank = 0x3))] arg: A<0>, #[educe(PartialOrd(rank = 0x5))] other: A<0> }, V1 }
+#[educe(PartialOrd, Eq, PartialEq)]
+pub struct T { x: A<0>, #[educe(PartialOrd(method = "m_pcmp", rank = 0x5))] size: A<0> }
 
-pub fn values() -> Vec<T> { vec![T::C { arg: A(0), other: A(0) }, T::C { arg: A(0), other: A(1) }, T::C { arg: A(0), other: A(7) }, T::C { arg: A(1), other: A(0) }, T::C { arg: A(1), other: A(1) }, T::C { arg: A(1), other: A(7) }, T::C { arg: A(7), other: A(0) }, T::C { arg: A(7), other: A(1) }, T::C { arg: A(7), other: A(7) }, T::V1] }
-pub fn show(x: &T) -> String { #[allow(unused_variables)] match x { T::C { arg: p0, other: p1 } => format!("C({},{})", sv(p0), sv(p1)), T::V1 => format!("V1()") } }
-pub fn o_disc(x: &T) -> i128 { match x { T::C { arg: _, other: _ } => 0, T::V1 => 1 } }
-pub fn o_cmp(a: &T, b: &T) -> Ordering { match (a, b) { (T::C { arg: a0, other: a1 }, T::C { arg: b0, other: b1 }) => { let c = ::core::cmp::Ord::cmp(a0, b0); if c != Ordering::Equal { return c; } let c = ::core::cmp::Ord::cmp(a1, b1); if c != Ordering::Equal { return c; } Ordering::Equal }, (T::V1, T::V1) => {  Ordering::Equal }, _ => o_disc(a).cmp(&o_disc(b)) } }
-pub fn run(out: &mut Out) { let vs = values(); for (i, a) in vs.iter().enumerate() { for (j, b) in vs.iter().enumerate() { let e = o_cmp(a, b); let g = ::core::cmp::Ord::cmp(a, b); out.check(g == e, "ord_14", "cmp", || format!("cmp({}, {}) = {:?} expected {:?}", show(a), show(b), g, e)); let g2 = ::core::cmp::PartialOrd::partial_cmp(a, b); out.check(g2 == Some(e), "ord_14", "partial_is_some_cmp", || format!("partial_cmp({}, {}) = {:?} expected Some({:?})", show(a), show(b), g2, e)); } } }
+pub fn values() -> Vec<T> { vec![T { x: A(0), size: A(0) }, T { x: A(0), size: A(1) }, T { x: A(0), size: A(7) }, T { x: A(1), size: A(0) }, T { x: A(1), size: A(1) }, T { x: A(1), size: A(7) }, T { x: A(7), size: A(0) }, T { x: A(7), size: A(1) }, T { x: A(7), size: A(7) }] }
+pub fn show(x: &T) -> String { #[allow(unused_variables)] match x { T { x: p0, size: p1 } => format!("T({},{})", sv(p0), sv(p1)) } }
+pub fn o_disc(x: &T) -> i128 { match x { T { x: _, size: _ } => 0 } }
+pub fn o_pcmp(a: &T, b: &T) -> Option<Ordering> { match (a, b) { (T { x: a0, size: a1 }, T { x: b0, size: b1 }) => { match ::core::cmp::PartialOrd::partial_cmp(a0, b0) { Some(Ordering::Equal) => (), x => return x } match m_pcmp(a1, b1) { Some(Ordering::Equal) => (), x => return x } Some(Ordering::Equal) } } }
+pub fn run(out: &mut Out) { let vs = values(); for (i, a) in vs.iter().enumerate() { for (j, b) in vs.iter().enumerate() { let e = o_pcmp(a, b); let g = ::core::cmp::PartialOrd::partial_cmp(a, b); out.check(g == e, "ord_14", "partial_cmp", || format!("partial_cmp({}, {}) = {:?} expected {:?}", show(a), show(b), g, e)); } } }
